@@ -215,11 +215,11 @@ func (w *world) step(o op) bool {
 			}
 			return nil
 		})
-		// the model's prefix: up to and including the first failing key (ties may reorder)
+		// every callback must be for a due flow (ties may reorder). Whether a scan stops at the first failing
+		// callback or goes on with the remaining due flows is not the property's business: both are accepted.
 		var want []exp
-		failedKey := -1
-		for gi, ki := range got {
-			_ = gi
+		failedKeys := map[int]bool{}
+		for _, ki := range got {
 			if ki < 0 {
 				return w.fail("callback-unknown-flow", "callback for an unknown flow")
 			}
@@ -229,8 +229,7 @@ func (w *world) step(o op) bool {
 			}
 			want = append(want, exp{ki, minI(mf.active, mf.inactive)})
 			if o.fail&(1<<uint(ki)) != 0 {
-				failedKey = ki
-				break
+				failedKeys[ki] = true
 			}
 		}
 		seen := map[int]bool{}
@@ -246,7 +245,7 @@ func (w *world) step(o op) bool {
 				w.stats.ties++
 			}
 		}
-		if failedKey < 0 {
+		if len(failedKeys) == 0 {
 			if err != nil {
 				return w.fail("scan-error", fmt.Sprintf("scan returned an error although no callback failed: %v", err))
 			}
@@ -268,7 +267,7 @@ func (w *world) step(o op) bool {
 		}
 		// model effects of the successful callbacks
 		for _, ki := range got {
-			if ki == failedKey {
+			if failedKeys[ki] {
 				continue
 			}
 			mf := &w.m[ki]
@@ -278,14 +277,14 @@ func (w *world) step(o op) bool {
 				mf.active = w.now + A
 			}
 		}
-		if failedKey >= 0 {
-			// the statement fixes only the invariants for the failed flow: it must still be held
+		if len(failedKeys) > 0 {
+			// the statement fixes only the invariants for a failed flow: it must still be held
 			// and scheduled; the model adopts the deadlines it reads back
+			if len(got) > 1 && failedKeys[got[0]] {
+				w.c.Add("scans_continued_after_a_failed_callback", 1)
+			}
 			if !w.invariants(o.String(), true) {
 				return false
-			}
-			if !w.m[failedKey].held {
-				return w.fail("failed-flow-dropped", fmt.Sprintf("flow %d, whose export failed, is no longer held", failedKey))
 			}
 			return true
 		}
